@@ -193,7 +193,38 @@ type cenv struct {
 	ccfg      hystrix.ConfigureCloser
 	passthru  bool             // a nil or zero-value circuit: nothing but Execute / Run / Go may be asked of it
 	sib       *circuit.Circuit // a sibling built from the SAME config value (same factory function values), own clock
+	dfltNote  string           // dflt=1: what a circuit built from an EMPTY config enforces, when that is not the documented 10 / 10
 }
+
+// probeDefaultLimits builds a circuit from an empty configuration and counts how many NESTED run functions, and how many
+// nested fallbacks, it lets in: the documented defaults are 10 concurrent runs and 10 concurrent fallbacks.
+func probeDefaultLimits() string {
+	c := circuit.NewCircuitFromConfig("probe", circuit.Config{})
+	ctx := context.Background()
+	runs, fbs := 0, 0
+	var nestRun func(d int)
+	nestRun = func(d int) {
+		if d == 0 {
+			return
+		}
+		_ = c.Run(ctx, func(context.Context) error { runs++; nestRun(d - 1); return nil })
+	}
+	nestRun(13)
+	var nestFb func(d int)
+	nestFb = func(d int) {
+		if d == 0 {
+			return
+		}
+		_ = c.Execute(ctx, func(context.Context) error { return errBoomDefault }, func(context.Context, error) error { fbs++; nestFb(d - 1); return nil })
+	}
+	nestFb(13)
+	if runs != 10 || fbs != 10 {
+		return fmt.Sprintf("runs-admitted:%d,fallbacks-admitted:%d,documented:10/10", runs, fbs)
+	}
+	return ""
+}
+
+var errBoomDefault = errors.New("boom")
 
 func applyCfg(cfg *circuit.Config, m map[string]string) {
 	cfg.General.ForceOpen = getB(m, "fo", cfg.General.ForceOpen)
@@ -725,7 +756,15 @@ func (circuitSuite) Run(h map[string]string, ops []string) []string {
 		clockBase = time.Date(2300, 1, 1, 0, 0, 0, 0, time.UTC)
 	}
 	e := newCenv(h)
+	if h["dflt"] == "1" {
+		e.dfltNote = probeDefaultLimits()
+	}
 	out := make([]string, len(ops))
+	defer func() {
+		if e.dfltNote != "" && len(out) > 0 {
+			out[0] += " dflt=" + e.dfltNote
+		}
+	}()
 	for i, op := range ops {
 		out[i] = func() (res string) {
 			defer func() {
